@@ -45,9 +45,9 @@ def run(ctx):
                 elif i % 4 == 1:
                     p["statistic"] = "stdev"
                 if p["statistic"] == "tstat":
-                    vs = [0.9, 0.6, 0.3, 0.2, 0.05, 0.01]       # (significance levels above one half are legal)
+                    vs = [0.9, 0.6, 0.3, 0.2, 0.05, 0.01, 0.0]       # (significance levels above one half are legal; level 0 = "never", the critical value is infinite)
                 else:
-                    vs = [0.05, 0.3, 0.5, 0.8, 1.0, 1.5, 2.0, 3.0]       # (a "number of deviations" below one is a legal, loose setting)
+                    vs = [0.05, 0.3, 0.5, 0.8, 1.0, 1.5, 2.0, 3.0, float("inf")]       # (a "number of deviations" below one is a legal, loose setting; infinitely many = "never")
             else:
                 vs = vals
             i1, i2 = sorted(rng.sample(range(len(vs)), 2))
@@ -56,6 +56,8 @@ def run(ctx):
                 i2 = rng.choice([1, 2, 3])
             if vals is None and p["statistic"] != "tstat" and i % 4 == 1:
                 i1, i2 = [(0, 4), (0, 5), (1, 4)][(i // 4) % 3]     # a count of deviations below one (0.05 / 0.3) against a count of one or more (1.0 / 1.5)
+            if vals is None and i % 5 == 3:         # HDDDM / CDBD: the strictest setting there is (an infinite critical value) against a finite one
+                i1, i2 = rng.randint(0, len(vs) - 3), len(vs) - 1
             if vals is not None and i == 0:         # the strictest legal setting of the family against a looser one, every time
                 i2 = len(vs) - 1
             if vals is not None and i == 1:         # ... and the loosest legal setting (a threshold of exactly 0, delta = 1) against a stricter one
@@ -108,6 +110,14 @@ def run(ctx):
         items = [round(base + rng.gauss(0, 0.3), 3) for _ in range(bi + rng.randint(0, 5))] + [round(base + step * k + rng.gauss(0, 0.3), 3) for k in range(60)]
         strict, loose = dict(p, threshold=rng.choice([0.5, 1.0, 2.0, 3.0])), dict(p, threshold=0.0)
         ts.append(P.two_runs(fam, strict, loose, items, rng.randrange(10 ** 6), "FirstDriftNotLater", extra={"par": "threshold"}))
+    # ... and the same pairing on streams whose running mean is NEGATIVE and which keep falling (the PH difference stays exactly 0): the history
+    # of the open finding F27 - threshold x mean is then negative for every positive threshold and 0 for threshold 0
+    for i in range(4 if q else 20):
+        bi = rng.choice([5, 10])
+        p = dict(burn_in=bi, delta=0.1, direction="positive")
+        items = [round(-0.05 - 0.02 * k - rng.uniform(0, 0.01), 4) for k in range(bi + 25)]
+        ts.append(P.two_runs("PageHinkley", dict(p, threshold=rng.choice([0.5, 1.0, 3.0])), dict(p, threshold=0.0), items, rng.randrange(10 ** 6),
+                             "FirstDriftNotLater", extra={"par": "threshold"}))
     # Page-Hinkley on streams whose running mean is negative (threshold * mean is then negative: every threshold must alarm at the same sample),
     # with sharp steps in the monitored direction right after the burn-in
     for i in range(30 if q else 150):
@@ -145,7 +155,7 @@ def run(ctx):
     from ..core import pmap
     for grp in pmap(hover, [(rng.randrange(10 ** 6),) for _ in range(40 if q else 200)]):
         ts += grp
-    ctx.validate("Product", ts, "strict vs loose detection threshold, same history and seed schedule (12 families)",
+    ctx.validate("Product", ts, "strict vs loose detection threshold, same history and seed schedule (12 families)", dev_module="Product",
                  replay=lambda i: {"mode": "detect", "fam": ts[i]["fam"], "pa": ts[i]["pa"], "pb": ts[i]["pb"], "items": ts[i]["items"], "seed": ts[i]["seed"]},
                  nontrivial=lambda t: any(e["b"]["state"] == "drift" for e in t["ev"]))
     tw = []
@@ -187,5 +197,5 @@ def run(ctx):
 def replay(ctx, bundle):
     r = bundle["replay"]
     t = P.two_runs(r["fam"], r["pa"], r["pb"], r["items"], r["seed"], "FirstDriftNotLater" if r["mode"] == "detect" else "WarningsSuperset")
-    ctx.validate("Product", [t], "replay", replay=lambda i: r)
+    ctx.validate("Product", [t], "replay", replay=lambda i: r, dev_module="Product")
     return ctx.finish()
